@@ -1,6 +1,6 @@
 //! C12 — unit conversion matches the unit definitions; linear, invertible, transitive.
 
-use super::common::{input_of, judge, run_case, Expect, LineCase};
+use super::common::{input_of, run_case, Expect, LineCase};
 use crate::explore::{Family, Mode, Verdict};
 use crate::lit::{self, Conv};
 use crate::model::arith::guarded_div;
@@ -240,10 +240,7 @@ impl Prop for C12 {
 
     fn exec(&self, ctx: &mut Ctx, case: &Case) -> Verdict {
         match case {
-            Case::Line(l) => {
-                let run = run_case(ctx, l);
-                judge(l, &run)
-            }
+            Case::Line(l) => super::common::exec_line(ctx, l),
             Case::CrossKind { text, target_group } => {
                 let l = LineCase::new(text.clone(), Expect::Unspecified, "cross-kind");
                 let run = run_case(ctx, &l);
